@@ -438,6 +438,27 @@ func RunReplay(p *Prop, path string, verifDir string) int {
 		tries = 10
 		pc.workers = 16
 	}
+	// a cross-process oracle (Merge) is replayed by running the processes it compares again
+	if strings.HasPrefix(rp.Sig, "result-depends-on-call-order/") && p.Merge != nil {
+		pc.workers = 16
+		rs := map[string]*Result{}
+		for _, fl := range []string{BaseFlavour(rp.Flavour), rp.Flavour} {
+			logPath := filepath.Join(pc.workDir, "replay."+strings.ReplaceAll(fl, "#", "_")+".log")
+			if _, to := pc.spawn(fl, nil, logPath, 30*time.Minute); to {
+				fmt.Println("INCONCLUSIVE replay timed out")
+				return 3
+			}
+			rs[fl] = readResult(filepath.Join(pc.workDir, fl+".result.json"))
+		}
+		for _, v := range p.Merge(rp.Tier, rs) {
+			if !v.Inconclusive {
+				fmt.Printf("VIOLATION property=%s replay=%s\n  sig=%s detail=%.900s\n", p.ID, path, v.Sig, compact(v.Detail))
+				return 1
+			}
+		}
+		fmt.Printf("REPLAY-OK property=%s the compared processes agree on the current tree\n", p.ID)
+		return 0
+	}
 	// a first-use interleaving cannot be reproduced by one case alone: repeat the whole cold-concurrent schedule
 	coldRp := strings.Contains(rp.Flavour, "#coldconc")
 	if coldRp {
